@@ -339,4 +339,65 @@ theorem mkCand_wf (env : Env) (ty : CType) (network address : Str) (port comp pr
     · simp only [ne_eq, ht, not_false_eq_true, if_true, List.append_nil, pairToks]
       exact ⟨by decide, Or.inl (by decide)⟩
 
+/-- network type and TCP type of a constructed candidate whose address is not an mDNS name -/
+theorem mkCand_net (env : Env) (ty : CType) (network address : Str) (port comp prio : Nat) (fnd : Str)
+    (tt : TcpType) (ra : Str) (rp rlp : Nat) (c0 : Cand)
+    (h : mkCand env ty network address port comp prio fnd tt ra rp rlp = .ok c0)
+    (hm : isMDNS address = false) :
+    netOf network (env.cls address) = some c0.net ∧ c0.tcpType = (if ty = .host then tt else .unspecified) := by
+  unfold mkCand at h
+  split at h
+  · rw [if_neg (by simp [hm])] at h
+    split at h
+    · cases h
+    · split at h
+      · cases h
+      · rename_i n hn
+        simp only [Except.ok.injEq] at h
+        subst h
+        exact ⟨hn, rfl⟩
+  · rename_i hnh
+    split at h
+    · cases h
+    · split at h
+      · cases h
+      · rename_i n hn
+        simp only [Except.ok.injEq] at h
+        subst h
+        have hne : ty ≠ .host := by intro e; exact hnh e
+        exact ⟨hn, by rw [if_neg hne]⟩
+
+/-- Two literals of one canonical IP in the same constructor call give Equal and DeepEqual candidates. -/
+theorem mkCand_literal_forms (env : Env) (hl : EnvLaw env) (ty : CType) (network a₁ a₂ : Str)
+    (port comp prio : Nat) (fnd : Str) (tt : TcpType) (ra : Str) (rp rlp : Nat) (c₁ c₂ : Cand) (k : Str)
+    (h1 : mkCand env ty network a₁ port comp prio fnd tt ra rp rlp = .ok c₁)
+    (h2 : mkCand env ty network a₂ port comp prio fnd tt ra rp rlp = .ok c₂)
+    (hk1 : env.canon a₁ = some k) (hk2 : env.canon a₂ = some k)
+    (hm1 : isMDNS a₁ = false) (hm2 : isMDNS a₂ = false) :
+    equal env c₁ c₂ = true ∧ deepEqual env c₁ c₂ = true := by
+  obtain ⟨m1, m2, m3, _, _, _, _, m8, m9, _⟩ := mkCand_inv _ _ _ _ _ _ _ _ _ _ _ _ _ h1
+  obtain ⟨n1, n2, n3, _, _, _, _, n8, n9, _⟩ := mkCand_inv _ _ _ _ _ _ _ _ _ _ _ _ _ h2
+  obtain ⟨p1, p2⟩ := mkCand_net _ _ _ _ _ _ _ _ _ _ _ _ _ h1 hm1
+  obtain ⟨q1, q2⟩ := mkCand_net _ _ _ _ _ _ _ _ _ _ _ _ _ h2 hm2
+  have hcls := cls_eq_of_canon env hl a₁ a₂ k hk1 hk2
+  have hnet : c₁.net = c₂.net := by
+    rw [hcls, q1] at p1; exact (Option.some.inj p1).symm
+  have htt : c₁.tcpType = c₂.tcpType := by rw [p2, q2]
+  have hrel : c₁.related = c₂.related := by
+    by_cases hh : ty = .host
+    · rw [m8 hh, n8 hh]
+    · rw [(m9 hh).1, (n9 hh).1]
+  have he : equal env c₁ c₂ = true := by
+    rw [equal_iff env hl]
+    refine ⟨by rw [m1, n1], hnet, by rw [m3, n3], htt, hrel, ?_, ?_⟩
+    · rw [m2, n2, sameAddressLiteral_iff]; exact Or.inr ⟨k, hk1, hk2⟩
+    · intro _; rw [m2, n2, hm1, hm2]
+  refine ⟨he, ?_⟩
+  unfold deepEqual
+  rw [he, Bool.true_and]
+  have : extensions c₁ = extensions c₂ := by
+    unfold extensions
+    rw [htt, mkCand_exts _ _ _ _ _ _ _ _ _ _ _ _ _ h1, mkCand_exts _ _ _ _ _ _ _ _ _ _ _ _ _ h2]
+  rw [this]; exact extensionsEqual_refl _
+
 end IceProofs.CandText
